@@ -110,6 +110,15 @@ def cmp(ctx, what, got_hrefs, want_counter):
     return None
 
 
+def _q(rng, ctx, fn, root, **kw):
+    """the module-level query or, one time in four, the shortcut method of the same name on the root element itself"""
+    m = getattr(root, fn.__name__, None) if not isinstance(root, (list, tuple, set)) else None
+    if callable(m) and rng.random() < 0.25:
+        ctx.count("queries_through_the_shortcut_method")
+        return m(**kw)
+    return fn(root, **kw)
+
+
 def run_case(ctx, i, rng):
     n = gen_ir.generate(rng, profile="any" if i % 2 else "edif", share=0.6, ndefs=rng.randint(4, 12), max_children=rng.choice([3, 4, 5]),
                         top_child_ok=(i % 5 == 0), style="mixed" if i % 3 == 0 else "simple")
@@ -216,25 +225,25 @@ def run_case(ctx, i, rng):
     for d in pick(defs, 6):
         for x in pick(d.children, 3):
             ctx.count("element_root_queries")
-            e = cmp(ctx, "get_hinstances(instance)", list(sdn.get_hinstances(x)), by_last.get(("instances", id(x)), collections.Counter()))
+            e = cmp(ctx, "get_hinstances(instance)", list(_q(rng, ctx, sdn.get_hinstances, x)), by_last.get(("instances", id(x)), collections.Counter()))
             if e:
                 ctx.violation("element-root:instance", "%s | %s" % (e, st))
                 return
         for p in pick(d.ports, 2):
             ctx.count("element_root_queries")
-            e = cmp(ctx, "get_hports(port)", list(sdn.get_hports(p)), by_last.get(("ports", id(p)), collections.Counter()))
+            e = cmp(ctx, "get_hports(port)", list(_q(rng, ctx, sdn.get_hports, p)), by_last.get(("ports", id(p)), collections.Counter()))
             if e:
                 ctx.violation("element-root:port", "%s | %s" % (e, st))
                 return
             for x in pick(p.pins, 2):
                 ctx.count("element_root_queries")
-                e = cmp(ctx, "get_hpins(inner pin)", list(sdn.get_hpins(x)), by_last.get(("pins", id(x)), collections.Counter()))
+                e = cmp(ctx, "get_hpins(inner pin)", list(_q(rng, ctx, sdn.get_hpins, x)), by_last.get(("pins", id(x)), collections.Counter()))
                 if e:
                     ctx.violation("element-root:pin", "%s | %s" % (e, st))
                     return
         for c in pick(d.cables, 2):
             ctx.count("element_root_queries")
-            e = cmp(ctx, "get_hcables(cable)", list(sdn.get_hcables(c)), by_last.get(("cables", id(c)), collections.Counter()))
+            e = cmp(ctx, "get_hcables(cable)", list(_q(rng, ctx, sdn.get_hcables, c)), by_last.get(("cables", id(c)), collections.Counter()))
             if e:
                 ctx.violation("element-root:cable", "%s | %s" % (e, st))
                 return
@@ -254,13 +263,13 @@ def run_case(ctx, i, rng):
                             wp[ids(k_)] = 1
                             wn[ids(kp)] = 1
             ctx.count("element_root_queries", 2)
-            e = cmp(ctx, "get_hports(cable)", list(sdn.get_hports(c)), wp) or cmp(ctx, "get_hpins(cable)", list(sdn.get_hpins(c)), wn)
+            e = cmp(ctx, "get_hports(cable)", list(_q(rng, ctx, sdn.get_hports, c)), wp) or cmp(ctx, "get_hpins(cable)", list(_q(rng, ctx, sdn.get_hpins, c)), wn)
             if e:
                 ctx.violation("element-root:cable-ports", "%s | %s" % (e, st))
                 return
             for w in pick(c.wires, 2):
                 ctx.count("element_root_queries")
-                e = cmp(ctx, "get_hwires(wire)", list(sdn.get_hwires(w)), by_last.get(("wires", id(w)), collections.Counter()))
+                e = cmp(ctx, "get_hwires(wire)", list(_q(rng, ctx, sdn.get_hwires, w)), by_last.get(("wires", id(w)), collections.Counter()))
                 if e:
                     ctx.violation("element-root:wire", "%s | %s" % (e, st))
                     return
@@ -270,7 +279,7 @@ def run_case(ctx, i, rng):
             if s[-1].reference is d and len(s) > 0:
                 wd[ids(s)] += 1
         ctx.count("element_root_queries")
-        e = cmp(ctx, "get_hinstances(definition)", list(sdn.get_hinstances(d)), wd)
+        e = cmp(ctx, "get_hinstances(definition)", list(_q(rng, ctx, sdn.get_hinstances, d)), wd)
         if e:
             ctx.violation("element-root:definition", "%s | %s" % (e, st))
             return
@@ -318,7 +327,7 @@ def run_case(ctx, i, rng):
             w = collections.Counter({k: v for k, v in want["instances"].items()
                                      if len(k) > len(s) and k[:len(s)] == s and (rec or len(k) == len(s) + 1)})
             ctx.count("element_root_queries")
-            e = cmp(ctx, "get_hinstances(href, recursive=%s)" % rec, list(sdn.get_hinstances(h, recursive=rec)), w)
+            e = cmp(ctx, "get_hinstances(href, recursive=%s)" % rec, list(_q(rng, ctx, sdn.get_hinstances, h, recursive=rec)), w)
             if e:
                 ctx.violation("href-root:instances", "%s | %s" % (e, st))
                 return
@@ -338,7 +347,7 @@ def run_case(ctx, i, rng):
             ctx.count("element_root_queries")
             ctx.count("nested_href_root_queries")
             e = cmp(ctx, "get_hinstances([two references, one directly below the other; %s], recursive=False)" % tag,
-                    list(sdn.get_hinstances(roots, recursive=False)), w)
+                    list(_q(rng, ctx, sdn.get_hinstances, roots, recursive=False)), w)
             if e:
                 ctx.violation("href-roots-nested:instances", "%s | %s" % (e, st))
                 return
@@ -358,7 +367,7 @@ def run_case(ctx, i, rng):
                         wport[ids(sq + (ip.port,))] = 1
                 ctx.count("element_root_queries", 2)
                 ctx.count("outer_pin_root_queries", 2)
-                e = cmp(ctx, "get_hpins(outer pin)", list(sdn.get_hpins(op)), wpin) or cmp(ctx, "get_hports(outer pin)", list(sdn.get_hports(op)), wport)
+                e = cmp(ctx, "get_hpins(outer pin)", list(_q(rng, ctx, sdn.get_hpins, op)), wpin) or cmp(ctx, "get_hports(outer pin)", list(_q(rng, ctx, sdn.get_hports, op)), wport)
                 if e:
                     ctx.violation("element-root:outer-pin", "%s | %s" % (e, st))
                     return
